@@ -30,25 +30,63 @@ def run(ctx):
 
 
 def r1_empty(ctx):
+    """is_empty_re(e) = no term of iter_derivatives(e) is nullable.  Read either from the closed form of the scan (an
+    iterator consumer, or a loop over the abstract stream of items) or, when the iterator is stepped by its own next()
+    in a hand-written loop, from the leaves of that loop: false only at an item that is nullable, true only after the
+    iterator ran out, every item that is passed over is not nullable."""
     m, e = A(0), A(1)
     for cfg in ('dev', 'rel'):
         an = analyse(ctx, cfg, RM + 'is_empty_re', [], uninterpreted=lambda p: True)
+        dom = ('items', ('call', RM + 'iter_derivatives', (m, e)))
+        closed = True
         for o in an.outs:
             ok = o.kind == 'ret'
             if ok:
                 q = o.value
-                dom = ('items', ('call', RM + 'iter_derivatives', (m, e)))
                 ok = isinstance(q, tuple) and q[0] == 'quant' and q[1] == 'all' and q[2] == dom
                 if ok:
                     x = ('elem', dom, q[3])
                     ok = T.valid_iff([], q[4], NOT(T.typed(('fld', x, 'nullable'), 'bool')))
-            ctx.obligation(ok)
-            (ctx.ok if ok else ctx.violation)('C05.R1', 'C05.R1/is_empty_re/no-nullable-term-in-derivative-closure-of-e', an.fn.path, an.fn.site(), {'returned': safe_show(an.ip, o)[:300]}, cfg)
+            closed = closed and ok
+        if not closed:
+            closed = by_hand(ctx, cfg, m, e)
+        ctx.obligation(closed)
+        (ctx.ok if closed else ctx.violation)('C05.R1', 'C05.R1/is_empty_re/no-nullable-term-in-derivative-closure-of-e', an.fn.path, an.fn.site(),
+                                            {'returned': [safe_show(an.ip, o)[:300] for o in an.outs if o.kind == 'ret']}, cfg)
+
+
+def by_hand(ctx, cfg, m, e):
+    log = calllog.run(ctx, cfg, RM + 'is_empty_re')
+    ip = log.ip
+    itd = ('call', RM + 'iter_derivatives', (m, e))
+
+    def item_of(st):
+        nx = [c for c in st.calls if c[0].endswith('as std::iter::Iterator>::next') and T.show(itd) in T.show(c[1][0])]
+        return calllog.payload(calllog.call_term(nx[-1])) if nx else None
+    ok = len(log.iterations) >= 1
+    for it in log.iterations:
+        x = item_of(it.state)
+        ok = ok and x is not None and ip.entails(it.state, NOT(T.typed(('fld', x, 'nullable'), 'bool')))
+    kinds = set()
+    for o in log.outs:
+        if o.kind != 'ret':
+            return False
+        if o.value == FALSE:
+            x = item_of(o.state)
+            ok = ok and x is not None and ip.entails(o.state, T.typed(('fld', x, 'nullable'), 'bool'))
+            kinds.add('f')
+        elif o.value == TRUE:
+            ok = ok and loop_exhausted(ip, o.state)
+            kinds.add('t')
+        else:
+            return False
+    return ok and kinds == {'t', 'f'}
 
 
 def r2_path(ctx):
     for cfg in ('dev', 'rel'):
-        log = calllog.run(ctx, cfg, RM + 'get_string_path')
+        # push_all(pre, iter) is `for (l, s) in iter { push(pre, l, s) }`: its loop is the successor loop when written that way
+        log = calllog.run(ctx, cfg, RM + 'get_string_path', inline=('LabeledQueue::<T, L>::push_all',))
         ip, fn = log.ip, log.fn
         e = A(1)
         outer = [h for h in log.heads if any(it.named('LabeledQueue::<T, L>::pop') for it in log.of_head(h))]
